@@ -418,6 +418,11 @@ fn drive_range<S: Sim>(
             total.totals.merge(&agg.totals);
             break;
         }
+        // a panic that escaped in the worker is a harness bug (library panics are caught)
+        if status.code() == Some(101) && agg.trap_line.is_none() {
+            eprintln!("HARNESS: worker for {}..{} panicked outside the system under test (run in flight: {})", start, end, in_flight);
+            std::process::exit(2);
+        }
         // the worker died: attribute to the run in flight
         deaths.fetch_add(1, Ordering::Relaxed);
         let culprit = if in_flight != u64::MAX && in_flight >= start && in_flight < end {
